@@ -166,12 +166,14 @@ def run_dropwater(spec, res):
     m = workload.materialise(spec)
     extra = rng.choice([[], ["--whitespace"], ["--noopt"], ["--keep-chain"]])
     # waters appear as HETATM or ATOM records and under both residue names
+    choice = {}
     for it in m["items"]:
         if isinstance(it, dict) and it["resn"] in ("HOH", "WAT"):
-            if rng.random() < 0.4:
-                it["rec"] = "ATOM"
-            if rng.random() < 0.3:
-                it["resn"] = "WAT" if it["resn"] == "HOH" else "HOH"
+            k = (it["chain"], it["resi"], it["icode"])
+            if k not in choice:
+                choice[k] = ("ATOM" if rng.random() < 0.4 else it["rec"],
+                             ("WAT" if it["resn"] == "HOH" else "HOH") if rng.random() < 0.3 else it["resn"])
+            it["rec"], it["resn"] = choice[k]
     m["text"] = pdbfmt.to_text(m["items"])
     stripped = [it for it in m["items"] if not (isinstance(it, dict) and it["resn"] in ("HOH", "WAT"))]
     nw = len(m["items"]) - len(stripped)
